@@ -43,6 +43,30 @@ func verifC10Files() [][]byte {
 			[]ggml.Tensor{{Name: "blk.0.attn_q.weight", Kind: k, Shape: []uint64{2, 2}, WriterTo: bytes.NewReader(make([]byte, ggml.Tensor{Kind: k, Shape: []uint64{2, 2}}.Size()))}})
 		files = append(files, vb.Bytes())
 	}
+	// well-formed files in which a key the handlers read through a typed accessor (ggml.KV.String/Uint/…: Kind,
+	// Architecture, FileType, ChatTemplate, BlockCount, vision.block_count, …) is stored with ANOTHER type, or is
+	// an adapter / a projector: the metadata is attacker-controlled, the accessors must not fail on it
+	wrong := []any{uint32(7), "text", uint64(3), float32(1.5), true, []string{"x"}, []int32{1, 2}, int8(-1)}
+	for _, key := range []string{"general.architecture", "general.type", "general.file_type", "general.name", "general.parameter_count",
+		"tokenizer.chat_template", "tokenizer.ggml.tokens", "tokenizer.ggml.model", "llama.block_count", "llama.vision.block_count",
+		"llama.context_length", "llama.embedding_length", "llama.attention.head_count", "llama.attention.head_count_kv", "llama.pooling_type"} {
+		for wi, w := range wrong {
+			if (wi+len(key))%2 == 1 && wi > 1 {
+				continue // half of the combinations per key keep the corpus small
+			}
+			kv := ggml.KV{"general.architecture": "llama", "llama.block_count": uint32(1), "tokenizer.ggml.tokens": []string{"a"}}
+			kv[key] = w
+			var vb bytes.Buffer
+			ggml.WriteGGUF(verifMemWS{&vb}, kv, []ggml.Tensor{{Name: "blk.0.attn_q.weight", Kind: 0, Shape: []uint64{2, 2}, WriterTo: bytes.NewReader(make([]byte, 16))}})
+			files = append(files, vb.Bytes())
+		}
+	}
+	for _, kind := range []string{"adapter", "projector", "model", ""} {
+		var vb bytes.Buffer
+		ggml.WriteGGUF(verifMemWS{&vb}, ggml.KV{"general.architecture": "llama", "general.type": kind, "llama.block_count": uint32(1), "tokenizer.ggml.tokens": []string{"a"}},
+			[]ggml.Tensor{{Name: "blk.0.attn_q.weight", Kind: 0, Shape: []uint64{2, 2}, WriterTo: bytes.NewReader(make([]byte, 16))}})
+		files = append(files, vb.Bytes())
+	}
 	// seeded mutants of a small valid file (field overwrites with boundary values, truncations)
 	var base bytes.Buffer
 	wf := verifMemWS{&base}
@@ -175,14 +199,15 @@ func TestVerifC10APIChild(t *testing.T) {
 				} `json:"layers"`
 			}
 			if json.Unmarshal(man, &mf) == nil {
-				var sizes []string
+				var sizes, media []string
 				for _, l := range mf.Layers {
 					switch l.MediaType {
 					case "application/vnd.ollama.image.model", "application/vnd.ollama.image.adapter", "application/vnd.ollama.image.projector":
 						sizes = append(sizes, strconv.FormatInt(l.Size, 10))
+						media = append(media, l.MediaType[len("application/vnd.ollama.image."):][:1])
 					}
 				}
-				fmt.Printf("VERIF layers=%s\n", strings.Join(sizes, ","))
+				fmt.Printf("VERIF layers=%s media=%s\n", strings.Join(sizes, ","), strings.Join(media, ","))
 			}
 		}
 	case "show":
@@ -262,10 +287,10 @@ func TestVerifC10API(t *testing.T) {
 			switch {
 			case strings.HasPrefix(r.res, "hang"):
 				impl = "loop"
-			case strings.HasPrefix(r.res, "death"), strings.HasPrefix(r.res, "unknown"), strings.HasPrefix(r.res, "panic-recovered"):
+			case strings.HasPrefix(r.res, "death"), strings.HasPrefix(r.res, "unknown"), strings.HasPrefix(r.res, "panic-recovered"), strings.HasPrefix(r.res, "no-error"):
 				impl = strings.Fields(r.res)[0]
 			case strings.HasPrefix(r.res, "create=200 error=false"):
-				impl = "ok sizes=" + r.layers
+				impl = "ok sizes=" + r.layers // "<n1,n2,…> media=<m|a|p,…>" 
 			}
 			out.Case(fmt.Sprintf("gguf-layers %d %s", maxSeek, zzverif.Hex(files[r.idx])), impl)
 			if r.idx >= verifC10MultiStart {
